@@ -175,3 +175,26 @@ Proof.
   - eapply scripts_writes_locked; eassumption.
   - eapply scripts_reads_locked; eassumption.
 Qed.
+
+(* ---- [in_fragment] weakened to [norm_script]: a script without statements never ends in [Done] ----------------------- *)
+Lemma compile_nostmts_code : forall sc p, compile sc = Some p -> norm_script sc = true -> s_stmts sc = [] -> p_code p = [].
+Proof.
+  intros sc p H Nm E. unfold compile in H. destruct (N.ltb max_vars (N.of_nat (length (s_vars sc)))); [discriminate|].
+  rewrite E in H. cbn [visit_all] in H.
+  destruct ((visit_all visit_var (s_vars sc);; cret tt) empty_cstate) as [[u c]|] eqn:K; [|discriminate].
+  injection H as <-. cbn [p_code]. cb K u1 csV Hv. apply cret_inv in K as [_ ->].
+  unfold norm_script in Nm. apply andb_prop in Nm as [Nv _].
+  exact (vs_code _ _ _ (visit_vars_ok _ _ _ _ Hv wf_empty Nv)).
+Qed.
+
+Theorem scripts_accepted_covered_norm : forall sc p vars s extra o r x,
+  compile sc = Some p -> norm_script sc = true -> (forall vs, vars = Some vs -> vars_typed (p_res p) vs) -> parse_typed s ->
+  no_overdraft sc = true ->
+  run_program p vars s extra = Done o -> ro_result o = Done r ->
+  EM.covers (script_view s x (proj x (res_posts r))) false (proj x (res_posts r)) = true.
+Proof.
+  intros sc p vars s extra o r x C Nm VT PT NO H Hr. destruct (s_stmts sc) as [|st l] eqn:E.
+  - exfalso. destruct (run_program_inv _ _ _ _ _ _ H Hr) as (vs & rr & vals & b & _ & _ & _ & _ & X & _).
+    rewrite (compile_nostmts_code _ _ C Nm E) in X. discriminate.
+  - eapply scripts_accepted_covered; try eassumption. unfold in_fragment. rewrite Nm, E. reflexivity.
+Qed.
